@@ -179,6 +179,9 @@ func (vm *vm) run() error {
 				pop()
 
 			case instr == opMUL && isString(peek(1)) && isInt(peek(0)):
+				if peek(0).(int) < 0 {
+					return vm.runtimeError("MUL: negative repeat count")
+				}
 				b, a := pop().(int), pop().(string)
 				push(strings.Repeat(a, b))
 
